@@ -597,3 +597,21 @@ F("L10", "C10", EC, "      for j, x in enumerate(self.BatchAddX(p, list_c)):\n  
   "R-C10-COVER", "BatchDL: point at infinity skipped before the table lookup (seed r3)")
 T("L11", "C10", EC, "      for j, x in enumerate(self.BatchAddX(p, list_c)):\n        if x in self._table:\n          for dl in", "      for j, x in enumerate(self.BatchAddX(p, list_c)):\n        if x not in self._table:\n          continue\n        if True:\n          for dl in",
   "BatchDL: lookup inverted into an early continue")
+
+# ---------------------------------------------------------------------------------- round 3: accumulation, high-and-low-bits order, shifts, isolation
+ES = L + "ecdsa_sig_checks.py"
+F("L20", "C08", ES, "          guesses.update(\n              hnp.HiddenNumberProblemForCurve(a, b, curve_id,\n                                              self.lcg_params[0],\n                                              self.lcg_params[1]))",
+  "          guesses = set(\n              hnp.HiddenNumberProblemForCurve(a, b, curve_id,\n                                              self.lcg_params[0],\n                                              self.lcg_params[1]))",
+  "R-C08-ACCUM", "LCG guesses overwrite those of earlier issuers (seed r3)")
+F("L21", "C17", ES, "          guesses.update(\n              hnp.HiddenNumberProblemForCurve(a, b, curve_id,\n                                              self.lcg_params[0],\n                                              self.lcg_params[1]))",
+  "          guesses = set(\n              hnp.HiddenNumberProblemForCurve(a, b, curve_id,\n                                              self.lcg_params[0],\n                                              self.lcg_params[1]))",
+  "R-C17-BYVALUE", "the same change seen from C17")
+T("L22", "C08", ES, "          guesses.update(\n              hnp.HiddenNumberProblemForCurve(a, b, curve_id,\n                                              self.lcg_params[0],\n                                              self.lcg_params[1]))",
+  "          found = hnp.HiddenNumberProblemForCurve(a, b, curve_id, self.lcg_params[0], self.lcg_params[1])\n          guesses |= set(found)",
+  "LCG guesses merged with |= through a temporary")
+F("L23", "C04", RU, "          s += 2 ** (i - m)\n          d = s**2 - n\n          if gmpy.is_square(d):\n            d_sqrt = gmpy.isqrt(d)\n            return [s - d_sqrt, s + d_sqrt]",
+  "          d = s**2 - n\n          if gmpy.is_square(d):\n            d_sqrt = gmpy.isqrt(d)\n            return [s - d_sqrt, s + d_sqrt]\n          s += 2 ** (i - m)", "R-C04-HIGHLOW", "candidate tested before it is advanced (seed r3)")
+T("L24", "C04", RU, "          s += 2 ** (i - m)\n          d = s**2 - n\n          if gmpy.is_square(d):", "          s = 2 ** (i - m) + s\n          cand = s\n          d = cand * cand - n\n          if gmpy.is_square(d):", "candidate through a temporary, s*s instead of s**2")
+F("L25", "C04", RU, "        for _ in range(2**m):\n          s += 2 ** (i - m)", "        for _ in range(2**m - 1):\n          s += 2 ** (i - m)", "R-C04-HIGHLOW", "one pass short: total advance is not 2^i")
+F("L26", "C18", EC, "    if shift > 0:\n      h >>= shift", "    if shift:\n      h >>= shift", "R-C18-SHIFT", "negative shift count for hashes shorter than the order (seed r3)")
+T("L27", "C18", EC, "    if shift > 0:\n      h >>= shift", "    if shift >= 1:\n      h = h >> shift", "shift guarded by >= 1")
